@@ -318,6 +318,19 @@ def derived(ix, R):
             if len(hit) != 1:
                 why6.append('the gathered %s is not put back into sample order (X[argsort(weights)] = X[argsort(gathered weights)]) '
                             'before the quantiles' % nm)
+        # the permutation of the gathered weights has to be taken BEFORE the weights are re-ordered in place: an
+        # `argsort()` evaluated after `W[p0] = W[pg]` sorts the already restored weights (and is the identity on the trace)
+        inplace = [e for e in stores_ if atom_of(fl, e.target) is not None and atom_of(fl, e.target).head == 'idx' and
+                   fl.tab.equal(atom_of(fl, e.target).args[0], G[1])]
+        if inplace:
+            first_w = min(fl.events.index(e) for e in inplace)
+            late = [c for c in fl.of('call') if c.name == 'argsort' and lp in c.loops and fl.events.index(c) > first_w and
+                    ((c.recv_rf is not None and fl.tab.equal(c.recv_rf, G[1])) or
+                     (c.args and isinstance(c.args[0], RF) and fl.tab.equal(c.args[0], G[1])))]
+            if late:
+                why6.append('argsort of the gathered weights is evaluated (line %d) after they were re-ordered in place (line %d): '
+                            'it no longer is the permutation of the gathered order' % (
+                                late[0].node.lineno, fl.events[first_w].node.lineno))
     keyst = [e for e in stores_ if atom_of(fl, e.target) is not None and atom_of(fl, e.target).head == 'idx'
              and 'derived' in fmt(fl, atom_of(fl, e.target).args[1])]
     rets = [e for e in fl.of('return') if e.value is not None and fmt(fl, e.value) != 'None']
